@@ -373,6 +373,18 @@ def make_case(op, sym, k, sa, sb, rng, stream, label, budget=4, unary=False, bou
             inline, expr = "a", "%s %s b" % (text(sa, litsA), sym)
         else:
             inline, expr = "b", "a %s %s" % (sym, text(sb, litsB))
+    if inline is None and not prelude and rng.random() < 0.08:
+        # one operand is a name bound by a match arm (a local environment), shadowing a global `w` that holds the OTHER
+        # operand's value: operators must resolve operand names through the local bindings first
+        if unary:
+            defs += "\n" + def_operand("w", k, sa, [litsA[-1]] * na)
+            inline, expr = "arm-a", "a? | w => %sw | * => %sa." % (sym, sym)
+        elif rng.random() < 0.5:
+            defs += "\n" + def_operand("w", k, sb, litsB)
+            inline, expr = "arm-a", "a? | w => w %s b | * => a %s b." % (sym, sym)
+        else:
+            defs += "\n" + def_operand("w", k, sa, litsA)
+            inline, expr = "arm-b", "b? | w => a %s w | * => a %s b." % (sym, sym)
     # needed scalar pairs
     bs = bshape(sa, sb)
     pairs, seen = [], {}
@@ -399,7 +411,7 @@ def make_case(op, sym, k, sa, sb, rng, stream, label, budget=4, unary=False, bou
     case_sx = sx(["ew", op, k, shape_sx(sa), shape_sx(sb), [[ia, ib] for ia, ib in pairs]])
     fa, fb = form(sa), form(sb)
     tags = dict(stream=stream, op=op, kind=k, arm=label, forms="%s-%s" % (fa, fb), kind_forms="%s:%s-%s" % (k, fa, fb),
-                accepted="yes" if accepts(op, k) else "no", written="inline-" + inline if inline else "variables")
+                accepted="yes" if accepts(op, k) else "no", written=("inline-" + inline if not inline.startswith("arm") else inline) if inline else "variables")
     if op in NONCOMM:
         tags["noncomm"] = "%s:%s:%s" % (KCLASS[k], op, label)
     return dict(sx=case_sx, impl=dict(srcs=srcs), tags=tags)
